@@ -140,7 +140,7 @@ def generate(seed, tier, k):
             t = 1 - abs(2 * (i + 1) / nops - 1)
         else:
             t = r.random()
-        op = {"t": round(float(t), 5), "accept": r.random() < 0.7}
+        op = {"t": round(float(t), 5), "t2": round(r.random(), 5), "accept": r.random() < 0.7}
         if r.random() < 0.2:
             op["excursion"] = round(r.uniform(1.1, 1.6), 3)  # a rejected trial beyond the path
         ops.append(op)
@@ -155,6 +155,8 @@ def generate(seed, tier, k):
         "amp": amp,
         "ops": ops,
         "out_dirty": r.random() < 0.5,
+        # half of the points of the batch follow another path (loading and unloading points in one call)
+        "hetero": r.random() < 0.4,
         "parallel": r.random() < 0.15 and name in ("NeoHooke", "NeoHookeCompressible", "ThreeField", "Volumetric", "LinearElasticLargeStrain"),
     }
     return doc
@@ -433,7 +435,13 @@ def run_point(doc, log):
     cold_spec = dict(spec)
     for k, op in enumerate(doc["ops"]):
         t = op["t"] * op.get("excursion", 1.0)
-        F = eye + amp * t * H
+        if doc.get("hetero"):
+            alt = (np.arange(q * c).reshape(q, c) % 2 == 1)
+            tt = np.where(alt, op.get("t2", t), t)
+            F = eye + amp * tt * H
+            log.count("heterogeneous-batch")
+        else:
+            F = eye + amp * t * H
         J = np.linalg.det(np.moveaxis(F, (0, 1), (-2, -1)))
         if J.min() < 0.3:
             log.count("op-skipped-domain")
